@@ -34,14 +34,18 @@ class Monitor:
                 name = args[0]
                 if name in self.watch_modules or name.split(".")[0] in ("vp_canary_mod", "vp_canary_pkg"):
                     self.events.append(("import-of-named-module", name))
-                elif getattr(self, "tokens", None) and name.split(".")[-1] in self.tokens and name.split(".")[-1].startswith("vp_"):
+                elif getattr(self, "tokens", None) and (name.split(".")[0] in self.tokens or name.split(".")[-1] in self.tokens):
+                    # the import machinery only raises this event for modules that are not loaded yet: a module whose name
+                    # occurs in the input is being imported because of the input
                     self.events.append(("import-of-input-chosen-name", name))
                 return
             if event == "open":
                 path, mode = args[0], args[1]
-                if isinstance(mode, str) and any(c in mode for c in "wax+"):
-                    if str(path) not in self.allowed_write:
-                        self.events.append(("open-for-write", str(path), mode))
+                flags = args[2] if len(args) > 2 else 0
+                writing = (isinstance(mode, str) and any(c in mode for c in "wax+")) or (
+                    mode is None and isinstance(flags, int) and flags & (os.O_WRONLY | os.O_RDWR | os.O_CREAT))
+                if writing and str(path) not in self.allowed_write:
+                    self.events.append(("open-for-write", str(path), str(mode)))
                 return
             if event == "exec":
                 code = args[0]
